@@ -228,14 +228,27 @@ def run(tier, seed):
         if cls == "md":
             from mudslide.models import HarmonicModel
             m = HarmonicModel([0.0], 0.0, [[0.02]], [2000.0]); x0, k = 0.3, 2.0
-        tr = make(cls, m, [x0], [k], rng, dt=10.0, max_steps=nst, seed_sequence=rng.randrange(2 ** 31), queue=queue.Queue())
+        sd_c = rng.randrange(2 ** 31)
+        tr = make(cls, m, [x0], [k], rng, dt=10.0, max_steps=nst, seed_sequence=sd_c, queue=queue.Queue())
         tr.simulate()
+        m_ref = M[mname]() if cls != "md" else type(m)([0.0], 0.0, [[0.02]], [2000.0])
+        ref_c = make(cls, m_ref, [x0], [k], rng, dt=10.0, max_steps=nst + 25, seed_sequence=sd_c); ref_c.simulate()
         info = dict(cls=cls, model=mname, clone_at_step=nst)
         try:
             c = tr.clone()
         except Exception as ex:
             bad.append(dict(failed="clone() raised %s: %s" % (type(ex).__name__, ex), case=info)); continue
         shared = [nm for nm in vars(tr) if nm not in ("queue", "model") and isinstance(getattr(tr, nm), (np.ndarray, list, dict)) and getattr(tr, nm) is getattr(c, nm)]
+        # ... nor through the objects it holds (electronics of this and of the previous step): no array of the clone overlaps one of the original
+        def arrays_of(o_):
+            out_ = []
+            for nm_ in ("electronics", "last_electronics"):
+                e_ = getattr(o_, nm_, None)
+                if e_ is None or e_ is getattr(o_, "model", None): continue
+                out_ += [(nm_ + "." + k_, v_) for k_, v_ in vars(e_).items() if isinstance(v_, np.ndarray) and v_.size > 0]
+            out_ += [(k_, v_) for k_, v_ in vars(o_).items() if isinstance(v_, np.ndarray) and v_.size > 0]
+            return out_
+        shared += sorted(set(a_ for a_, x_ in arrays_of(c) for b_, y_ in arrays_of(tr) if np.shares_memory(x_, y_)))
         if shared or c.tracer is tr.tracer or c.random_state is tr.random_state:
             bad.append(dict(failed="a clone shares no mutable state with the original other than the work queue (shared: %r)" % shared, case=info)); continue
         for t in (tr, c):
@@ -249,6 +262,9 @@ def run(tier, seed):
             bad.append(dict(failed="a clone taken at any step evolves exactly as the original does from that step", case=info))
         elif cls == "afssh" and not (np.array_equal(tr.delR, c.delR) and np.array_equal(tr.delP, c.delP)):
             bad.append(dict(failed="a clone taken at any step evolves exactly as the original does from that step (the A-FSSH moments of clone and original differ after the same continuation: max |delR - delR'| = %.3g)" % float(np.max(np.abs(tr.delR - c.delR))), case=info))
+        # ... and both equal the run that was never interrupted (same seed): nothing is lost or reset when simulate() is entered again
+        if cls != "afssh" and not snaps_equal(trace_dump(ref_c.tracer), trace_dump(c.tracer)):
+            bad.append(dict(failed="a clone taken at any step evolves exactly as the original does from that step (continued clone differs from the uninterrupted run with the same seed)", case=info))
         res.count("clone/" + cls); res.case(("clone", cls, mname, nst), True, info)
     f1, e1 = run_case_check("C12k", PRELUDE, "list nat * list nat * list (list (list nat))", "chk12k", kc, per_file=400)
     f2, e2 = run_case_check("C12d", PRELUDE, "list float * list float * nat * list float", "chk12d", dc, per_file=400)
